@@ -564,7 +564,7 @@ def c08(out):
     env = core.san_env("prod")
     exe = build_driver("drv_ct_vg", ["drv_ct.c"] + HIST, "prod", extra=["-DVH_VALGRIND"])
     if _ct_control(out, exe, env, vgw, "memcheck", False):
-        run_sharded(out, exe, ["--case-timeout", "900"], "prod", n(out, 2400, 30000), label="memcheck", wrapper=vgw, timeout=3000)
+        run_sharded(out, exe, ["--case-timeout", "900"] + (["--aged", "65600"] if out.tier == "thorough" else []), "prod", n(out, 2400, 30000), label="memcheck", wrapper=vgw, timeout=3000)
         out.variants.append("prod (-O3, shipped flags) under valgrind memcheck")
     exe = build_driver("drv_ct", ["drv_ct.c"] + HIST, "msan")
     if _ct_control(out, exe, core.san_env("msan"), [], "msan", True):
